@@ -216,6 +216,17 @@ def relational(run, seed, models, nproblems):
                     expect(f"RootAtMidpoint:{order_tag}", lnl(name, two.root_at_midpoint(), aln, params, mprobs))
                     other = rnd.choice([t for t in ("a", "b", "c", "d", "e") if t != tip])
                     expect(f"RootedWithTip:{order_tag}", lnl(name, two.rooted_with_tip(other), aln, params, mprobs))
+            # the numeric TYPE of the branch lengths carried by the tree is a representation: numpy.float32 / float16 lengths
+            # (a tree built from arrays) must give what Python floats of the same value give (no transform on top: adding two float16 lengths rounds differently)
+            import numpy as _np
+
+            for ftype in (_np.float32, _np.float16):
+                tnp, tpy = tree.deepcopy(), tree.deepcopy()
+                for a_, b_ in zip(tnp.get_edge_vector(include_root=False), tpy.get_edge_vector(include_root=False)):
+                    a_.length = ftype(a_.length)
+                    b_.length = float(ftype(b_.length))
+                want_t = lnl(name, tpy, aln, params, mprobs)
+                expect(f"LengthType:{ftype.__name__}", lnl(name, tnp, aln, params, mprobs), want=want_t)
             roots = [e.name for e in tree.get_edge_vector(include_root=False) if not e.is_tip()]
             for r in roots:
                 val = lnl(name, tree.rooted_at(r), aln, params, mprobs)
